@@ -1,9 +1,11 @@
 import Ivg.Model.Decoder
 import Ivg.Model.Arc
 import Ivg.Model.MdIcons
-import Ivg.Gen.Tie
+import Ivg.Gen.Tie.DrawOps
+import Ivg.Gen.Tie.DecodeErrors
+import Ivg.Gen.Tie.Magic
 import Ivg.Obligations
 /-! # Property C03 — theorems (work in progress: tie obligations only so far) -/
 namespace Ivg.Props.C03
 end Ivg.Props.C03
-#obligations C03 [Ivg.Gen.Tie.drawOps_tie, Ivg.Gen.Tie.magic_tie, Ivg.Gen.Tie.errorStrings_tie]
+#obligations C03 [Ivg.Gen.Tie.drawOps_tie, Ivg.Gen.Tie.magic_tie, Ivg.Gen.Tie.decodeErrors_tie]
